@@ -2,6 +2,7 @@ import Slu.Model.Order
 import SluProofs.Lemmas.Order
 import SluProofs.Lemmas.EtreeDef
 import SluProofs.Lemmas.Relax
+import SluProofs.Lemmas.HeapRelax
 /-
 C10 — Column orderings are permutations; elimination tree exact and postordered.
 
@@ -15,6 +16,19 @@ on every run with the executable checker `isPerm`, sound and complete by `isPerm
 the graph of AᵀA) is proved at the end of the file, with the correctness of `find`/`link`
 (`find_correct`, `link_correct`), the characterisation of Liu's output for arbitrary lists
 (`liu_least`) and the symmetric variants (`symetree_eq_def`, `coletree_eq_symetree_ata`).
+
+Relaxed supernodes.  `relaxSnode_ranges` (relax_snode.c, postordered forest: the tree `sp_preorder` returns
+unless SymmetricMode, `spPreorder_subtrees`) and `heapRelaxSnode_ranges` (heap_relax_snode.c, ANY heap-ordered
+forest: the tree `sp_preorder` returns in SymmetricMode; lemmas in Lemmas/HeapRelax.lean): every recorded
+supernode `s..e` is exactly the subtree of `e` in the caller's labels, small, pairwise disjoint from the others,
+and every leaf is covered.  For heap_relax_snode in addition: a supernode of several columns is a MAXIMAL small
+subtree, and conversely every maximal small subtree whose vertices are consecutive columns is recorded — with
+the other clauses this determines `relax_end` completely (a maximal small subtree that is not consecutive
+contributes its leaves as supernodes of one column) — and the returned `descendants` (postorder labels) are
+the true descendant counts, `descendants[post v] = (descendants n et)[v]`.  What the model does not contain
+(so no theorem speaks about it): the routine temporarily overwrites the caller's `et[]` with the relabelled
+tree and restores it at the end, and it allocates and frees `post`/`iwork`; both are tied by the exact
+comparison of `et` before/after and of the outputs (family `order`) and by the allocation ledger (C19).
 -/
 namespace Slu.Order
 
@@ -293,6 +307,122 @@ theorem relaxSnode_ranges (n relax : Nat) (et : Array Nat) (h : Heap n et)
     have := hleaf (lo k) (by omega) ((hp k hk (lo k) (by omega)).mpr ⟨Nat.le_refl _, hl⟩)
     exact this
 
+/-- **heap_relax_snode on ANY heap-ordered forest** (heap_relax_snode.c; SymmetricMode: `sp_preorder` returns
+the column elimination tree as computed — heap ordered, `coletree_heap`, but not postordered).  No postorder
+hypothesis.  For every heap-ordered forest `et` with root marker `n` and every `relax`, with
+`post = TreePostorder(et)` and `descendants n et` the number of proper descendants of every vertex
+(`descendants_eq`):
+* `relax_end` (indexed by the CALLER's labels) has `n` entries; an entry is EMPTY (-1) or the last column
+  `e` of a supernode starting at `s ≤ e < n`, and then the columns `s..e` are EXACTLY the vertex set of the
+  subtree of the caller's forest rooted at `e` — so a supernode is recorded only for a subtree that occupies
+  consecutive columns of the caller (the `(l-k) == (j-snode_start)` test); a supernode of more than one
+  column has fewer than `relax` proper descendants (`e - s` of them) and is maximal (`e` is a root or the
+  subtree of its parent has `≥ relax` proper descendants); no other supernode starts inside `(s, e]`, so the
+  supernodes are pairwise disjoint;
+* conversely every maximal small subtree (a leaf, or fewer than `relax` proper descendants; root or parent
+  with `≥ relax`) whose vertices are consecutive columns `s..e` of the caller IS recorded, `relax_end[s] = e`;
+* every leaf of the forest lies in one of the recorded supernodes (when the maximal small subtree around
+  it is not consecutive, by the two clauses above, as a supernode of one column);
+* `descendants` (indexed by POSTORDER labels) has `n` entries and `descendants[post v]` is the number of
+  proper descendants of `v`: it is `post v - lo` for the block `lo..post v` of postorder numbers that
+  `treePostorder_spec` assigns to the subtree of `v`, and it equals the count `relax_snode`'s first loop
+  computes in the caller's labels, `(descendants n et)[v]`. -/
+theorem heapRelaxSnode_ranges (n relax : Nat) (et : Array Nat) (h : Heap n et) :
+    (heapRelaxSnode n relax et).2.size = n ∧
+    (∀ s < n, (heapRelaxSnode n relax et).2.getD s (-1) = -1 ∨
+      ∃ e : Nat, (heapRelaxSnode n relax et).2.getD s (-1) = Int.ofNat e ∧ s ≤ e ∧ e < n ∧
+        (∀ u < n, Desc n et u e ↔ s ≤ u ∧ u ≤ e) ∧ (s < e → e - s < relax) ∧
+        (s < e → et.getD e 0 = n ∨ relax ≤ (descendants n et).getD (et.getD e 0) 0) ∧
+        ∀ t, s < t → t ≤ e → (heapRelaxSnode n relax et).2.getD t (-1) = -1) ∧
+    (∀ e < n, ∀ s, (∀ u < n, Desc n et u e ↔ s ≤ u ∧ u ≤ e) → (s < e → e - s < relax) →
+      (et.getD e 0 = n ∨ relax ≤ (descendants n et).getD (et.getD e 0) 0) →
+      (heapRelaxSnode n relax et).2.getD s (-1) = Int.ofNat e) ∧
+    (∀ k < n, (∀ u < n, Desc n et u k → u = k) →
+      ∃ s e : Nat, s ≤ k ∧ k ≤ e ∧ (heapRelaxSnode n relax et).2.getD s (-1) = Int.ofNat e) ∧
+    (heapRelaxSnode n relax et).1.size = n ∧
+    (∀ v < n, ∀ lo, (∀ u ≤ n, Desc n et u v ↔
+        lo ≤ (treePostorder n et).getD u 0 ∧ (treePostorder n et).getD u 0 ≤ (treePostorder n et).getD v 0) →
+      (heapRelaxSnode n relax et).1.getD ((treePostorder n et).getD v 0) 0 = (treePostorder n et).getD v 0 - lo) ∧
+    (∀ v < n, (heapRelaxSnode n relax et).1.getD ((treePostorder n et).getD v 0) 0 = (descendants n et).getD v 0) := by
+  obtain ⟨et', desc, iv, lo, j', C, hj', ⟨hs, _, hlow, _, _, hcov, htops⟩, hsz1, hd, hdesc⟩ :=
+    heapRelaxSnode_inv n relax et h
+  generalize hq : (fun j => (treePostorder n et).getD j 0) = q at C hcov hlow htops
+  have hqv : ∀ j, (treePostorder n et).getD j 0 = q j := fun j => by rw [← hq]
+  simp only [hqv]
+  -- the counts in postorder labels are the counts of the caller's forest
+  have hdq : ∀ v, v < n → desc.getD (q v) 0 = (descendants n et).getD v 0 := by
+    intro v hv
+    rw [hdesc _ (C.qlt v hv)]
+    have h1 := descendants_eq h v hv
+    have h2 := C.order_length v hv
+    omega
+  -- "root, or parent with many descendants" in both labellings
+  have hmax : ∀ e, e < n → ((et'.getD (q e) 0 = n ∨ relax ≤ desc.getD (et'.getD (q e) 0) 0) ↔
+      (et.getD e 0 = n ∨ relax ≤ (descendants n et).getD (et.getD e 0) 0)) := by
+    intro e he
+    rw [C.rel e he]
+    rcases h e he with hp | ⟨_, hp⟩
+    · rw [hp, C.qn]; simp
+    · have h1 := C.qlt _ hp
+      rw [hdq _ hp]
+      constructor
+      · rintro (c | c)
+        · omega
+        · exact Or.inr c
+      · rintro (c | c)
+        · omega
+        · exact Or.inr c
+  refine ⟨hs, ?_, ?_, ?_, hsz1, ?_, ?_⟩
+  · intro s hsn
+    rcases hlow s hsn with h1 | ⟨e, h1, h2, h3, _, h5, h6, h6', h7⟩
+    · exact Or.inl h1
+    · exact Or.inr ⟨e, h1, h2, h3, h5, h6, fun c => (hmax e h3).mp (h6' c), h7⟩
+  · intro e he s hsub hsmall hbig
+    have hqe := C.qlt e he
+    have := htops (q e) hqe (by omega) ?_ ((hmax e he).mpr hbig) s (by rw [C.ivq e he]; exact hsub)
+    · rwa [C.ivq e he] at this
+    · have h1 := descendants_eq h e he
+      rw [order_length_of_block h he hsub] at h1
+      have h2 := hdq e he
+      have hl := C.post.lo_le _ hqe
+      by_cases hse : s < e
+      · right; have := hsmall hse; omega
+      · left
+        have h3 := hdesc _ hqe
+        have : s ≤ e := ((hsub e he).mp (Desc.refl e)).1
+        omega
+  · intro k hk hleaf
+    have hqk := C.qlt k hk
+    apply hcov k hk (by omega)
+    -- a leaf of the caller's forest is a leaf of the relabelled forest
+    have hl := C.post.lo_le _ hqk
+    have hlt : lo (q k) < n := by omega
+    have hd' : Desc n et (iv (lo (q k))) k :=
+      (C.q_block (C.ivlt _ hlt) hk).mpr (by rw [C.qiv _ hlt]; exact ⟨Nat.le_refl _, hl⟩)
+    have := congrArg q (hleaf _ (C.ivlt _ hlt) hd')
+    rwa [C.qiv _ hlt] at this
+  · intro v hv lo' hl'
+    have hqvn := C.qlt v hv
+    rw [hd _ hqvn]
+    have hl := C.post.lo_le _ hqvn
+    have a2 : lo' ≤ q v := ((hl' v (Nat.le_of_lt hv)).mp (Desc.refl v)).1
+    have hLn : lo (q v) < n := by omega
+    have hl'n : lo' < n := by omega
+    have b1 : lo' ≤ lo (q v) := by
+      have hd1 : Desc n et (iv (lo (q v))) v :=
+        (C.q_block (C.ivlt _ hLn) hv).mpr (by rw [C.qiv _ hLn]; exact ⟨Nat.le_refl _, hl⟩)
+      have := ((hl' _ (Nat.le_of_lt (C.ivlt _ hLn))).mp hd1).1
+      rwa [C.qiv _ hLn] at this
+    have b2 : lo (q v) ≤ lo' := by
+      have hd2 : Desc n et (iv lo') v :=
+        (hl' _ (Nat.le_of_lt (C.ivlt _ hl'n))).mpr (by rw [C.qiv _ hl'n]; exact ⟨Nat.le_refl _, a2⟩)
+      have := ((C.q_block (C.ivlt _ hl'n) hv).mp hd2).1
+      rwa [C.qiv _ hl'n] at this
+    omega
+  · intro v hv
+    rw [hd _ (C.qlt v hv), ← hdesc _ (C.qlt v hv)]
+    exact hdq v hv
+
 /-- **relax_snode, ranges** (any heap-ordered forest, postordered or not).  On every heap-ordered forest: `relax_end` has `n` entries; an entry
 is EMPTY (-1) or the last column `e` of a range `s ≤ e < n`; no range starts inside `(s, e]`, so the
 recorded ranges are pairwise disjoint; a range of more than one column ends at a column whose
@@ -324,6 +454,86 @@ example (A : Pat) (p : Array Nat) (hp : isPerm A.n p = true) (relax : Nat) :
     (relaxSnode A.n relax (spPreorder A p false).etree).2.size = A.n :=
   (relaxSnode_ranges A.n relax (spPreorder A p false).etree (spPreorder_perm A p false hp).2.2.2.2.2.2.2
     (spPreorder_subtrees A p hp)).1
+
+/-! non-vacuity of `heapRelaxSnode_ranges`: heap-ordered forests that are NOT postordered.
+
+`hxA` = parents `[3,4,5,4,5]`, root marker 5: the chains 0→3→4, 1→4 and the isolated root 2.  The subtree of 4
+is `{0,1,3,4}`: not consecutive (2 is missing).  `hxB` = parents `[1,6,4,5,5,6]`: 0→1, 2→4→5, 3→5; the subtree
+of 4 is `{2,4}` (not consecutive), the subtrees of 1 and 5 are `{0,1}` and `{2,3,4,5}` (consecutive). -/
+def hxA : Array Nat := #[3, 4, 5, 4, 5]
+def hxB : Array Nat := #[1, 6, 4, 5, 5, 6]
+
+theorem hxA_heap : Heap 5 hxA := by unfold Heap; decide
+theorem hxB_heap : Heap 6 hxB := by unfold Heap; decide
+
+/-- neither is postordered: in `hxA` 2 lies between 1 and 4 but is no descendant of 4; in `hxB` 3 lies between
+2 and 4 but is no descendant of 4 -/
+example : ¬ ∀ v < 5, ∃ lo, ∀ u < 5, Desc 5 hxA u v ↔ lo ≤ u ∧ u ≤ v := by
+  intro hp
+  obtain ⟨lo, hlo⟩ := hp 4 (by decide)
+  have h1 : Desc 5 hxA 1 4 := Desc.step (by decide) (Desc.refl _)
+  have h2 := (hlo 2 (by decide)).mpr ⟨by have := ((hlo 1 (by decide)).mp h1).1; omega, by decide⟩
+  cases h2 with
+  | step _ h3 => exact absurd (desc_le_of_heap hxA_heap h3) (by decide)
+example : ¬ ∀ v < 6, ∃ lo, ∀ u < 6, Desc 6 hxB u v ↔ lo ≤ u ∧ u ≤ v := by
+  intro hp
+  obtain ⟨lo, hlo⟩ := hp 4 (by decide)
+  have h1 : Desc 6 hxB 2 4 := Desc.step (by decide) (Desc.refl _)
+  have h2 := (hlo 3 (by decide)).mpr ⟨by have := ((hlo 2 (by decide)).mp h1).1; omega, by decide⟩
+  cases h2 with
+  | step _ h3 => exact absurd (desc_le_of_heap hxB_heap h3) (by decide)
+
+/-- `hxA`, `relax = 5`: the postorder is `2,1,0,3,4`; the climb from the leaf 1 (postorder label 1) reaches the
+root 4 with 3 < 5 descendants, block of postorder labels `1..4` = callers' columns `{1,0,3,4}`: `l - k = 4 ≠ 3`,
+the contiguity test FAILS and the leaves 0 and 1 are recorded as supernodes of one column.  (`relax_snode`,
+which assumes a postordered tree, would record the range `0..4`, which contains the foreign column 2.) -/
+example : treePostorder 5 hxA = #[2, 1, 0, 3, 4, 5] := by decide +kernel
+example : heapRelaxSnode 5 5 hxA = (#[0, 0, 0, 1, 3], #[0, 1, 2, -1, -1]) := by decide +kernel
+example : (relaxSnode 5 5 hxA).2 = #[4, -1, -1, -1, -1] := by decide +kernel
+
+/-- the theorem instantiated on `hxA`: column 0 starts the supernode `0..0`, which is the whole subtree of 0,
+and the leaf 1 is covered -/
+example : ∃ e : Nat, (heapRelaxSnode 5 5 hxA).2.getD 0 (-1) = Int.ofNat e ∧ 0 ≤ e ∧ e < 5 ∧
+    (∀ u < 5, Desc 5 hxA u e ↔ 0 ≤ u ∧ u ≤ e) ∧ (0 < e → e - 0 < 5) ∧
+    (0 < e → hxA.getD e 0 = 5 ∨ 5 ≤ (descendants 5 hxA).getD (hxA.getD e 0) 0) ∧
+    ∀ t, 0 < t → t ≤ e → (heapRelaxSnode 5 5 hxA).2.getD t (-1) = -1 := by
+  rcases (heapRelaxSnode_ranges 5 5 hxA hxA_heap).2.1 0 (by decide) with h | h
+  · exact absurd h (by decide +kernel)
+  · exact h
+
+/-- `hxB`, `relax = 2`: the subtree `{0,1}` of 1 passes the contiguity test (`relax_end[0] = 1`), the leaf 3 is
+a supernode of its own, and the subtree `{2,4}` of 4 (1 < 2 descendants) fails the test, so only its leaf 2
+is recorded.  `relax = 4`: the subtree `{2,3,4,5}` of 5 is small and consecutive in the caller's labels
+although it is not a block that the forest's own numbering lists in postorder: `relax_end[2] = 5`. -/
+example : heapRelaxSnode 6 2 hxB = (#[0, 1, 0, 0, 1, 3], #[1, -1, 2, 3, -1, -1]) := by decide +kernel
+example : heapRelaxSnode 6 4 hxB = (#[0, 1, 0, 0, 1, 3], #[1, -1, 5, -1, -1, -1]) := by decide +kernel
+
+/-- the theorem instantiated on `hxB`, `relax = 4`: the columns `2..5` are exactly the subtree of 5 -/
+example : ∀ u < 6, Desc 6 hxB u 5 ↔ 2 ≤ u ∧ u ≤ 5 := by
+  rcases (heapRelaxSnode_ranges 6 4 hxB hxB_heap).2.1 2 (by decide) with h | ⟨e, h1, _, _, h4, _⟩
+  · exact absurd h (by decide +kernel)
+  · have : e = 5 := by
+      have h5 : (heapRelaxSnode 6 4 hxB).2.getD 2 (-1) = Int.ofNat 5 := by decide +kernel
+      rw [h5] at h1
+      exact (Int.ofNat.inj h1).symm
+    subst this
+    exact h4
+
+/-- the converse clause instantiated: the subtree of 5 is `2..5` (evaluated through `order`), has 3 < 4 proper
+descendants and 5 is a root, so the theorem — not an evaluation — says `relax_end[2] = 5` -/
+theorem hxB_subtree5 : ∀ u < 6, Desc 6 hxB u 5 ↔ 2 ≤ u ∧ u ≤ 5 := by
+  intro u hu
+  rw [show Desc 6 hxB u 5 ↔ u ∈ order hxB 5 from
+    ⟨mem_order_of_desc hxB_heap, desc_of_mem_order (by decide)⟩]
+  revert u
+  decide +kernel
+example : (heapRelaxSnode 6 4 hxB).2.getD 2 (-1) = Int.ofNat 5 :=
+  (heapRelaxSnode_ranges 6 4 hxB hxB_heap).2.2.1 5 (by decide) 2 hxB_subtree5 (by decide) (Or.inl (by decide))
+
+/-- … and the stored descendant counts are those of the caller's forest read through the postorder:
+`descendants[post v] = (descendants n et)[v]` for all six vertices -/
+example : ∀ v < 6, (heapRelaxSnode 6 4 hxB).1.getD ((treePostorder 6 hxB).getD v 0) 0 = (descendants 6 hxB).getD v 0 :=
+  (heapRelaxSnode_ranges 6 4 hxB hxB_heap).2.2.2.2.2.2
 
 /-- a 3x3 arrow pattern: columns {0,1,2}, {0,1}, {0,2} -/
 def exA : Pat := { m := 3, n := 3, colptr := #[0, 3, 5, 7], rowind := #[0, 1, 2, 0, 1, 0, 2] }
